@@ -7,6 +7,7 @@ package main
 
 import (
 	"math/rand"
+	"os"
 	"strings"
 	"time"
 
@@ -78,10 +79,11 @@ func errClass(err error) string {
 func main() {
 	mon.Main(mon.Options{
 		Property: "C09", Level: "exploration",
-		Rule: "entry points: Decode/DecodeStrict of every generated codec type; blockchain.NewBlock(+Validate)/NewBlockHeader/NewTransaction/NewEvent/NewBlockAsset; Executer.blockValidator, singleCommitValidator, txpool.transactionValidator directly and through p2p's gossip validator wrapper, then (only for data the validator accepted) onBlockReceived+process / onTransactionAnnouncement; verifyAggregateCommit and processValidated/process with re-signed blocks carrying hostile aggregate commits; p2p request/response envelope decoding and dispatch to the sync and txpool RPC handlers on a started connection; client-side decoding of sync responses, and the real client functions + Downloader against a hostile libp2p peer; smt.Verify/CalculateRoot, rmt.VerifyProof/CalculateRootFromUpdateData/VerifyRightWitness/CalculateRootFromAppendPath; crypto.BLSVerify/BLSPopVerify/BLSVerifyAggSig/BLSVerifyWeightedAggSig/VerifySignature/ValidateBlockSignature. inputs per entry point: valid message, truncation at every offset (sampled above 2 KB), structure-aware mutation of the lisk codec wire format (each length prefix -> 0, len-1, len+1, 2^31, 2^63-1, 2^63, 2^64-1 with fixed-up and with stale ancestors, each varint -> boundary values and over-long / unterminated encodings, wire type and field number changes, field deletion/duplication/reordering/40x repetition), random byte mutations, all byte strings of length <= 2; structured arguments mutated per component (wrong lengths, non-curve points, point at infinity, all-zero, all-0xff, short/long bitmaps, parallel slices of different lengths, out-of-range indexes, missing sibling hashes). oracle per call (single goroutine per shard): no panic; TotalAlloc delta <= 1024*len(input)+8 MiB; process CPU time <= 5 s for inputs < 64 KiB; no return within 60 s while >= 30 s CPU burned = hang; Downloader: >= 40 identical requests answered identically without the download ending = hang (state provably not advancing). non-trivial+distinct = (entry point, mutation class, outcome)",
+		Rule: "entry points: Decode/DecodeStrict of every generated codec type; blockchain.NewBlock(+Validate)/NewBlockHeader/NewTransaction/NewEvent/NewBlockAsset; Executer.blockValidator, singleCommitValidator, txpool.transactionValidator directly and through p2p's gossip validator wrapper, then (only for data the validator accepted) onBlockReceived+process / onTransactionAnnouncement; verifyAggregateCommit and processValidated/process with re-signed blocks carrying hostile aggregate commits; p2p request/response envelope decoding and dispatch to the sync and txpool RPC handlers on a started connection; client-side decoding of sync responses, and the real client functions + Downloader against a hostile libp2p peer; smt.Verify/CalculateRoot, rmt.VerifyProof/CalculateRootFromUpdateData/VerifyRightWitness/CalculateRootFromAppendPath; crypto.BLSVerify/BLSPopVerify/BLSVerifyAggSig/BLSVerifyWeightedAggSig/VerifySignature/ValidateBlockSignature. inputs per entry point: valid message, truncation at every offset (sampled above 2 KB), structure-aware mutation of the lisk codec wire format (each length prefix -> 0, len-1, len+1, 2^31, 2^63-1, 2^63, 2^64-1 with fixed-up and with stale ancestors, each varint -> boundary values and over-long / unterminated encodings, wire type and field number changes, field deletion/duplication/reordering/40x repetition), random byte mutations, all byte strings of length <= 2; structured arguments mutated per component (wrong lengths, non-curve points, point at infinity, all-zero, all-0xff, short/long bitmaps, parallel slices of different lengths, out-of-range indexes, missing sibling hashes). oracle per call (single goroutine per shard): no panic; TotalAlloc delta <= 1024*len(input)+8 MiB; user CPU time of the process (getrusage) <= 5 s for inputs < 64 KiB; no return within 60 s wall and >= 30 s user CPU burned meanwhile = hang; Downloader: >= 40 identical requests answered identically without the download ending = hang (state provably not advancing). non-trivial+distinct = (entry point, mutation class, outcome)",
 		Assumptions: []string{
 			"the scripted ABI of internal/node stands in for the application behind processValidated / transaction verification",
 			"allocation and CPU bounds use generous constants (1024 B per input byte + 8 MiB; 5 s) - they catch length-prefix-driven and super-linear behaviour, not small constant-factor waste",
+			"CPU verdicts use user time only: under memory pressure the kernel charges page reclaim to the allocating process as system time, which is not the work of the call",
 			"after an entry point was found hanging (60 s watchdog, shard restart) it is not driven again in the same run; skipped calls are counted as skipped_after_hang:<entry>",
 			"hang without CPU consumption is inconclusive except for the Downloader, where non-termination is decided logically from the repeated identical request/response pair",
 		},
@@ -91,11 +93,25 @@ func main() {
 		MinNontrivial: 200,
 	}, func(c *mon.Ctx) {
 		h := hostile.New(c)
-		codecStreams(c, h)
-		cryptoStreams(c, h)
-		trieStreams(c, h)
-		chainStreams(c, h)
-		netStreams(c, h)
+		// VERIF_C09_ONLY=codec,crypto,trie,chain,net restricts a development run to some stream
+		// groups (the cases of a stream do not depend on which other streams run)
+		only := os.Getenv("VERIF_C09_ONLY")
+		want := func(g string) bool { return only == "" || strings.Contains(","+only+",", ","+g+",") }
+		if want("codec") {
+			codecStreams(c, h)
+		}
+		if want("crypto") {
+			cryptoStreams(c, h)
+		}
+		if want("trie") {
+			trieStreams(c, h)
+		}
+		if want("chain") {
+			chainStreams(c, h)
+		}
+		if want("net") {
+			netStreams(c, h)
+		}
 		h.Report()
 	})
 }
